@@ -578,8 +578,8 @@ class Exec:
             return OpaqueV("str+")
         if isinstance(op, ast.Mult) and sa is not None and (is_int(b)):
             # [c] * n  : constant sequence
-            if sa.lit is not None and len(sa.lit) == 1:
-                c0 = I(sa.lit[0])
+            if concrete_int(sa.n) == 1:
+                c0 = sa.get(I(0))
                 n = simp(z3.If(b < 0, I(0), b))
                 return self.alloc(SeqV(sa.kind, (lambda c0: (lambda j: c0))(c0), n))
             raise Unsupported("sequence repetition")
